@@ -749,3 +749,121 @@ def rule_renderings(ctx, rep):
         gk = [k for k, p in enumerate(paths) if any(p == q for q in got)] if isinstance(got, list) else got
         rep.check(gk == keep and isinstance(got, list) and len(got) == len(keep), rule, f"filter '{pattern}'", where, gk, keep,
                   why="--filter-paths must remove exactly the paths whose short notation matches the pattern")
+
+
+# ---------------------------------------------------------------------------------------------- group configuration plumbing (C13)
+
+def rule_group_config(ctx, rep):
+    rule = "T-CONFIG"
+    rep.rule(rule, "a group configuration (as parsed from the YAML file) becomes the transactions the verdict function reads: type, absolute index, "
+                   "logic-sig / application function, 'other is at offset k' relations inverted once; the verdicts on the configured group follow "
+                   "the configured routes; duplicate ids / indices and unknown ids are rejected")
+    w = ctx.world
+    GC = "tealer.utils.command_line.group_config"
+    COMMON = "tealer.utils.command_line.common"
+    PFM = "tealer.teal.parse_functions"
+    w.module(PFM).values["_apply_transaction_context_analysis"] = ("builtin", "noop")
+    from_yaml = w.getattr(w.cls(GC, "GroupConfig"), "from_yaml")
+    init = w.func(COMMON, "init_tealer_from_config")
+    where = f"{ctx.path(COMMON)}:{init.node.lineno}"
+    w.files = {"lsig_a.teal": "#pragma version 6\narg 0\npop\nint 1\nreturn\n", "lsig_b.teal": "#pragma version 6\narg 1\npop\nint 1\nreturn\n",
+               "app.teal": "#pragma version 6\nint 0\napp_global_get\npop\nint 1\nreturn\n"}
+
+    def contract(name, path, ctype):
+        return {"name": name, "file_path": path, "type": ctype, "version": 6, "subroutines": [], "functions": [{"name": "main", "dispatch_path": ["B0"]}]}
+
+    def cfg(transactions):
+        return {"name": "g", "contracts": [contract("A", "lsig_a.teal", "LogicSig"), contract("B", "lsig_b.teal", "LogicSig"), contract("APP", "app.teal", "ApprovalProgram")],
+                "groups": [{"operation": "op", "transactions": transactions}]}
+
+    def call(c, f="main"):
+        return {"contract": c, "function": f}
+
+    base = [
+        {"txn_id": "T0", "txn_type": "pay", "logic_sig": call("A"), "absolute_index": 0},
+        {"txn_id": "T1", "txn_type": "appl", "application": call("APP"), "logic_sig": call("B"), "relative_indexes": [{"other_txn_id": "T0", "offset": -1}, {"other_txn_id": "T2", "offset": 1}]},
+        {"txn_id": "T2", "txn_type": "axfer", "has_logic_sig": True, "absolute_index": 2},
+    ]
+    try:
+        tl = w.call(init, w.call(from_yaml, cfg(base)))
+    except PyRaise as e:
+        rep.violation(rule, "configuration loads", where, f"RAISES {e.exc} {e.where}", "a Tealer object")
+        return
+    grp = w.getattr(tl, "groups")[0]
+    txs = {w.getattr(t, "transacton_id"): t for t in w.getattr(grp, "transactions")}
+    rep.check(sorted(txs) == ["T0", "T1", "T2"], rule, "transactions created", where, sorted(txs), ["T0", "T1", "T2"])
+    if sorted(txs) != ["T0", "T1", "T2"]:
+        return
+    view = {}
+    for tid, t in txs.items():
+        ls, app = w.getattr(t, "logic_sig"), w.getattr(t, "application")
+        view[tid] = {"type": w.getattr(t, "type").name, "abs": w.getattr(t, "absoulte_index"), "has_logic_sig": w.getattr(t, "has_logic_sig"),
+                     "logic_sig": w.getattr(w.getattr(ls, "contract"), "contract_name") if ls is not None else None,
+                     "application": w.getattr(w.getattr(app, "contract"), "contract_name") if app is not None else None,
+                     "sees": {k: w.getattr(o, "transacton_id") for k, o in w.getattr(t, "relative_indexes").items()}}
+    want = {"T0": {"type": "Pay", "abs": 0, "has_logic_sig": True, "logic_sig": "A", "application": None, "sees": {}},
+            "T1": {"type": "Appl", "abs": None, "has_logic_sig": True, "logic_sig": "B", "application": "APP", "sees": {-1: "T0", 1: "T2"}},
+            "T2": {"type": "Axfer", "abs": 2, "has_logic_sig": True, "logic_sig": None, "application": None, "sees": {}}}
+    rep.check(view == want, rule, "transaction attributes", where, view, want, why="the configured group is not what the verdict function reads")
+    gri = w.getattr(grp, "group_relative_indexes")
+    got = {w.getattr(k, "transacton_id"): {w.getattr(k2, "transacton_id"): v for k2, v in d.items()} for k, d in gri.items()}
+    rep.check(got == {"T0": {"T1": -1}, "T1": {}, "T2": {"T1": 1}}, rule, "who sees whom at which offset", where, got, {"T0": {"T1": -1}, "T1": {}, "T2": {"T1": 1}})
+    absx = {k: w.getattr(v, "transacton_id") for k, v in w.getattr(grp, "absolute_indexes").items()}
+    rep.check(absx == {0: "T0", 2: "T2"}, rule, "absolute index table", where, absx, {0: "T0", 2: "T2"})
+    rep.check(w.getattr(tl, "output_group") is True, rule, "group mode selected", where, w.getattr(tl, "output_group"), True)
+    # verdicts on the configured group, marker contexts on the leaf blocks of the three functions
+    fA, fB, fAPP = w.getattr(txs["T0"], "logic_sig"), w.getattr(txs["T1"], "logic_sig"), w.getattr(txs["T1"], "application")
+    dets = path_detectors(ctx)
+    f = w.func(DU, "detect_missing_tx_field_validations_group_complete")
+    pred = _marker_pred(ctx)
+
+    def set_marks(fn, self_=False, rel=None, absx=None):
+        for b in w.getattr(fn, "blocks"):
+            c = w.call(w.method(fn, "transaction_context"), b)
+            it = Interp(c.cls.mod)
+            it.assign_attr(c, "max_fee_unknown", self_)
+            for k in (-1, 1):
+                it.assign_attr(w.call(w.method(c, "relative_context"), k), "max_fee_unknown", bool(rel and rel.get(k)))
+            for i in (0, 1, 2):
+                it.assign_attr(w.call(w.method(c, "absolute_context"), i), "max_fee_unknown", bool(absx and absx.get(i)))
+
+    def verdict(det):
+        out = w.call(f, tl, det, pred)
+        return sorted({w.getattr(t, "transacton_id") for o in out for t in w.getattr(o, "transactions")})
+
+    stateless = Obj(dets["rekey-to"]["cls"])
+    # T2 is signed by a logic sig that is not part of the configuration: nothing is known about it, so it is vulnerable unless another
+    # member validates it
+    rows = [("nobody validates", {}, {}, {}, ["T0", "T1", "T2"]),
+            ("B validates the transaction at offset -1 (= T0)", {}, {"rel": {-1: True}}, {}, ["T1", "T2"]),
+            ("B validates the transaction at offset +1 (= T2)", {}, {"rel": {1: True}}, {}, ["T0", "T1"]),
+            ("B validates absolute index 0 (= T0)", {}, {"absx": {0: True}}, {}, ["T1", "T2"]),
+            ("B validates absolute index 2 (= T2)", {}, {"absx": {2: True}}, {}, ["T0", "T1"]),
+            ("B validates absolute index 1 (nobody is configured there)", {}, {"absx": {1: True}}, {}, ["T0", "T1", "T2"]),
+            ("A validates itself", {"self_": True}, {}, {}, ["T1", "T2"]),
+            ("A validates absolute index 2 (= T2)", {"absx": {2: True}}, {}, {}, ["T0", "T1"]),
+            ("the application of T1 validates T1's own field", {}, {}, {"self_": True}, ["T0", "T2"]),
+            ("the application validates offset -1 (= T0)", {}, {}, {"rel": {-1: True}}, ["T1", "T2"]),
+            ("the application validates offset +1 (= T2) and B offset -1 (= T0)", {}, {"rel": {-1: True}}, {"rel": {1: True}}, ["T1"])]
+    for name, ma, mb, mapp, want_v in rows:
+        set_marks(fA, **ma); set_marks(fB, **mb); set_marks(fAPP, **mapp)
+        try:
+            got_v = verdict(stateless)
+        except PyRaise as e:
+            got_v = f"RAISES {e.exc} {e.where}"
+        rep.check(got_v == want_v, rule, f"verdict: {name}", where, got_v, want_v, why="the verdict on the configured group does not follow the configured relations",
+                  sample={"row": name, "vulnerable": want_v})
+    # rejected configurations
+    bad = {"duplicate transaction id": base[:1] + [dict(base[0], absolute_index=1)],
+           "duplicate absolute index": base[:1] + [dict(base[2], absolute_index=0)],
+           "relative index to an unknown transaction": [dict(base[0], relative_indexes=[{"other_txn_id": "nope", "offset": 1}])],
+           "application given as logic sig": [{"txn_id": "X", "txn_type": "appl", "logic_sig": call("APP")}],
+           "logic sig given as application": [{"txn_id": "X", "txn_type": "appl", "application": call("A")}],
+           "unknown function": [{"txn_id": "X", "txn_type": "pay", "logic_sig": call("A", "nope")}]}
+    for name, txns in bad.items():
+        try:
+            w.call(init, w.call(from_yaml, cfg(txns)))
+            got = "accepted"
+        except PyRaise as e:
+            got = f"rejected ({e.exc})"
+        rep.check(got.startswith("rejected"), rule, f"invalid configuration rejected: {name}", where, got, "rejected")
